@@ -24,7 +24,9 @@ import (
 	"net/http"
 	"net/http/httputil"
 	"net/url"
+	"strconv"
 	"strings"
+	"sync/atomic"
 	"time"
 
 	libio "github.com/fatedier/golib/io"
@@ -44,7 +46,11 @@ type HTTPReverseProxyOptions struct {
 
 type HTTPReverseProxy struct {
 	proxy       http.Handler
+	transport   *http.Transport
 	vhostRouter *Routers
+
+	// number of registrations so far, gives every registered route its own connection pool key
+	registerSeq uint64
 
 	responseHeaderTimeout time.Duration
 }
@@ -81,11 +87,14 @@ func NewHTTPReverseProxy(option HTTPReverseProxyOptions, vhostRouter *Routers) *
 					log.Tracef("choose endpoint name [%s] for http request host [%s] path [%s] httpuser [%s]",
 						endpoint, originalHost, reqRouteInfo.URL, reqRouteInfo.HTTPUser)
 				}
-				// Set {domain}.{location}.{routeByHTTPUser}.{endpoint} as URL host here to let http transport reuse connections.
+				// Set {domain}.{location}.{routeByHTTPUser}.{endpoint}.{registration} as URL host here to let http transport reuse connections.
+				// The registration number keeps a route registered later on the same triple from reusing
+				// idle connections that lead to the backend of the former owner.
 				req.URL.Host = rc.Domain + "." +
 					base64.StdEncoding.EncodeToString([]byte(rc.Location)) + "." +
 					base64.StdEncoding.EncodeToString([]byte(rc.RouteByHTTPUser)) + "." +
-					base64.StdEncoding.EncodeToString([]byte(endpoint))
+					base64.StdEncoding.EncodeToString([]byte(endpoint)) + "." +
+					strconv.FormatUint(rc.id, 10)
 
 				for k, v := range rc.Headers {
 					req.Header.Set(k, v)
@@ -140,6 +149,7 @@ func NewHTTPReverseProxy(option HTTPReverseProxyOptions, vhostRouter *Routers) *
 			_, _ = rw.Write(getNotFoundPageContent())
 		},
 	}
+	rp.transport = proxy.Transport.(*http.Transport)
 	rp.proxy = h2c.NewHandler(proxy, &http2.Server{})
 	return rp
 }
@@ -147,6 +157,7 @@ func NewHTTPReverseProxy(option HTTPReverseProxyOptions, vhostRouter *Routers) *
 // Register register the route config to reverse proxy
 // reverse proxy will use CreateConnFn from routeCfg to create a connection to the remote service
 func (rp *HTTPReverseProxy) Register(routeCfg RouteConfig) error {
+	routeCfg.id = atomic.AddUint64(&rp.registerSeq, 1)
 	err := rp.vhostRouter.Add(routeCfg.Domain, routeCfg.Location, routeCfg.RouteByHTTPUser, &routeCfg)
 	if err != nil {
 		return err
@@ -157,6 +168,8 @@ func (rp *HTTPReverseProxy) Register(routeCfg RouteConfig) error {
 // UnRegister unregister route config by domain and location
 func (rp *HTTPReverseProxy) UnRegister(routeCfg RouteConfig) {
 	rp.vhostRouter.Del(routeCfg.Domain, routeCfg.Location, routeCfg.RouteByHTTPUser)
+	// idle connections of the removed route lead to a backend that must not be reached any more
+	rp.transport.CloseIdleConnections()
 }
 
 func (rp *HTTPReverseProxy) GetRouteConfig(domain, location, routeByHTTPUser string) *RouteConfig {
